@@ -338,14 +338,28 @@ def d8_7(ctx):
 
 
 # raw operations on a decoder's input stream outside the checked primitive, each with the reason it cannot hand out a
-# fixed-width value made from fewer bytes (keyed by class / function and the source of the call, never by line)
+# fixed-width value made from fewer bytes (keyed by class / function, the operation and the folded value of its arguments, never by
+# line or by the spelling of the argument)
 ACCEPTED_RAW_STREAM_OPS = {
-    ("DataType._stream_read", "stream.read(size)"): "the checked primitive itself: empty -> BufferEmptyError, short -> DataError",
-    ("STRINGI.decode", "stream.read(3)"): "the 3 bytes are re-decoded as a SHORT_STRING of declared length 3, which checks the length",
-    ("STRINGI.decode", "stream.read(1)"): "indexed with [0]: an empty result raises inside the contained decoder",
-    ("StructTag.StructTag._decode", "stream.read(offset - stream.tell())"): "skips a gap inside the private copy of the structure image, which _stream_read(size) has already length-checked",
+    ("STRINGI.decode", "read", (3,)): "the 3 bytes are re-decoded as a SHORT_STRING of declared length 3, which checks the length",
+    ("STRINGI.decode", "read", (1,)): "indexed with [0]: an empty result raises inside the contained decoder",
 }
+# structural acceptances: (a) any raw read inside the checked primitive `_stream_read` itself (empty -> BufferEmptyError, short ->
+# DataError: D8.2 decides that); (b) a raw read on a name that the function has rebound, once and before the read, to a BytesIO over
+# the result of `_stream_read(...)`: a private copy whose length the primitive has already checked (StructTag skips gaps this way)
 ADVANCING = ("read", "seek", "readinto", "read1", "readline", "truncate", "write")
+
+
+def _private_copy(fn, name, read_call):
+    """`name` is rebound exactly once in `fn`, by a top-level statement before `read_call`, to BytesIO(<... _stream_read(...) ...>)."""
+    binds = [n for n in walk(fn) if isinstance(n, (ast.Assign, ast.AugAssign, ast.AnnAssign, ast.For, ast.With, ast.NamedExpr)) and any(isinstance(t, ast.Name) and t.id == name and isinstance(t.ctx, ast.Store) for t in walk(n)
+                                                                                                                                         if not isinstance(n, ast.For) or t in list(walk(n.target)))]
+    if len(binds) != 1 or not isinstance(binds[0], ast.Assign) or binds[0] not in fn.body:
+        return False
+    a = binds[0]
+    v = a.value
+    wraps = isinstance(v, ast.Call) and call_name(v) == "BytesIO" and len(v.args) == 1 and any(isinstance(x, ast.Call) and isinstance(x.func, ast.Attribute) and x.func.attr == "_stream_read" for x in walk(v.args[0]))
+    return wraps and len(a.targets) == 1 and isinstance(a.targets[0], ast.Name) and (a.end_lineno or a.lineno) < read_call.lineno
 
 
 @rule(P, "D8.9", "T-WHO", floor=3)
@@ -368,11 +382,17 @@ def d8_9(ctx):
             recv = c.func.value
             if not (isinstance(recv, ast.Name) and recv.id in ("stream", "buffer", "_stream", "data_stream")):
                 continue
-            k = (q, src(c))
+            args = tuple(ctx.folder.eval(a, fi.module) for a in c.args)
+            k = (q, c.func.attr, args if all(isinstance(a, int) for a in args) else (src(c),))
             seen.add(k)
-            if k in ACCEPTED_RAW_STREAM_OPS:
+            why = ACCEPTED_RAW_STREAM_OPS.get(k)
+            if why is None and fi.node.name == "_stream_read" and c.func.attr == "read":
+                why = "the checked primitive itself: empty -> BufferEmptyError, short -> DataError"
+            if why is None and c.func.attr == "read" and _private_copy(fi.node, recv.id, c):
+                why = "a read inside the function's private copy of the bytes `_stream_read` has already length-checked"
+            if why is not None:
                 n_ok += 1
-                ctx.ok(ckey(fi, f"raw-stream:{src(c)}"), c, f"accepted raw stream operation: {ACCEPTED_RAW_STREAM_OPS[k]}")
+                ctx.ok(ckey(fi, f"raw-stream:{c.func.attr}:{n_ok}"), c, f"accepted raw stream operation `{src(c)}`: {why}")
             else:
                 ctx.violation(ckey(fi, f"raw-stream:{src(c)}"), c, f"`{src(c)}` in {q} moves the decoder's input outside `_stream_read`: bytes that are not there are skipped or handed out without BufferEmptyError / DataError "
                                                                      f"(a fixed-width value can be produced from fewer bytes than its width)")
